@@ -167,6 +167,11 @@ static void apply_switch(IPhreeqc* p, const std::string& s, bool b) {
   else if (s == "dumpfile") p->SetDumpFileOn(b); else if (s == "dumpstr") p->SetDumpStringOn(b);
   else if (s == "selfile") p->SetSelectedOutputFileOn(b); else if (s == "selstr") p->SetSelectedOutputStringOn(b);
 }
+// `sw cur <n>` selects the user number the following selfile / selstr switches apply to
+static void apply_sw(IPhreeqc* p, const std::vector<std::string>& w) {
+  if (w[0] == "cur") p->SetCurrentSelectedOutputUserNumber(atoi(w[1].c_str()));
+  else apply_switch(p, w[0], w[1] == "1");
+}
 static void apply_name(IPhreeqc* p, const std::string& s, const std::string& v) {
   if (s == "out") p->SetOutputFileName(v.c_str()); else if (s == "err") p->SetErrorFileName(v.c_str());
   else if (s == "log") p->SetLogFileName(v.c_str()); else if (s == "dump") p->SetDumpFileName(v.c_str());
@@ -241,7 +246,7 @@ static void probe_views(IPhreeqc* p, int ret, std::vector<std::pair<std::string,
 
 static void child_main(const Case& c) {
   FuzzIPhreeqc* A = new FuzzIPhreeqc();
-  for (auto& s : c.sw) apply_switch(A, s[0], s[1] == "1");
+  for (auto& s : c.sw) apply_sw(A, s);
   for (auto& s : c.fn) apply_name(A, s[0], hx::unhex(s[1]));
   std::string exc;
   A->begin_call();
@@ -286,7 +291,7 @@ static void child_main(const Case& c) {
   int rl = call_api(A, lop, exc);
   fprintf(R, "RL %d %s %s %zu\n", rl, exc.c_str(), hx::hex(A->GetErrorString()).c_str(), TestIPhreeqc::istream_depth(A)); fflush(R);
   FuzzIPhreeqc* B = new FuzzIPhreeqc();
-  for (auto& s : c.sw) apply_switch(B, s[0], s[1] == "1");
+  for (auto& s : c.sw) apply_sw(B, s);
   for (auto& s : c.fn) apply_name(B, s[0], hx::unhex(s[1]));
   B->begin_call();
   int rb = call_api(B, lop, exc);
